@@ -9,6 +9,7 @@ import (
 // C19 — formatting is idempotent and preserves what the template means.
 
 //verif:harness VerifC19_Text quick.maxpaths=60000 thorough.maxpaths=400000 timeout=2400 unwind=80
+//verif:harness VerifC19_TwoMustaches quick.maxpaths=60000 thorough.maxpaths=400000 timeout=2400 unwind=80
 //verif:harness VerifC19_Attr quick.maxpaths=60000 thorough.maxpaths=400000 timeout=2400
 //verif:harness VerifC19_Corpus quick.maxpaths=20000 thorough.maxpaths=100000 timeout=2400 steps=40000000
 
@@ -80,6 +81,21 @@ func VerifC19_Text() {
 	zzAssert(escapeText(t) == out, "C19.text.deterministic")
 }
 
+// VerifC19_TwoMustaches: two interpolations in one text node with arbitrary
+// text inside and between them.
+func VerifC19_TwoMustaches() {
+	n := zzBound("N", 1, 2)
+	x := zzStringIn("x", n, "<>&a ")
+	mid := zzStringIn("mid", n, "<>&a; ")
+	y := zzStringIn("y", n, "<>&a ")
+	t := "{{" + x + "}}" + mid + "{{" + y + "}}"
+	out := escapeText(t)
+	zzNote("out", out)
+	zzAssert(zzTagOpens(out) == 0, "C19.text.opens-a-tag")
+	zzAssert(out == zzRefEscapeText(t), "C19.text.not-the-specified-escaping")
+	zzAssert(zzTextRoundTrips(out, t), "C19.text.round-trip")
+}
+
 // zzRefAttr is the specification of attribute formatting: white space is
 // collapsed and trimmed, '"' and an '&' that would start a character
 // reference are written as references.
@@ -141,6 +157,7 @@ var zzC19Corpus = []string{
 	/* 9 */ "<template include=\"c.vuego\" :p=\"{a: 1, b: 'x'}\"><template #h=\"s\">{{ s.v }}</template></template>",
 	/* 10 */ "<td>cell</td><td>two</td>",
 	/* 11 */ "<p>{{ a < b }} and {{ c && d }} &amp; {{ e > f ? 'x' : 'y' }}</p>",
+	/* 12 */ "<p>{{ a }} &lt;b&gt; &amp;lt; {{ c }}</p><pre>{{ x }} &lt;i&gt; {{ y }}</pre>",
 }
 
 func zzSig(nodes []*html.Node) string {
